@@ -29,7 +29,16 @@ func Seq[E any](s Src, min, max int, elem func(Src) E) []E {
 		if max > min {
 			lo = rapid.IntRange(min, max).Draw(rs.t, "minlen")
 		}
-		g := rapid.Custom(func(t *rapid.T) E { return elem(rapidSrc{t}) })
+		g := rapid.Custom(func(t *rapid.T) E {
+			draws := 0
+			e := elem(rapidSrc{t, &draws})
+			if draws == 0 {
+				// rapid rejects a Custom generator that consumes no data
+				// ("group did not use any data"): draw a dummy bit.
+				rapid.Bool().Draw(t, "pad")
+			}
+			return e
+		})
 		return rapid.SliceOfN(g, lo, max).Draw(rs.t, "seq")
 	}
 	n := s.length(min, max)
@@ -52,19 +61,28 @@ func Range(s Src, lo, hi int) int { return lo + s.Intn(hi-lo+1) }
 // ---------------------------------------------------------------------------
 // rapid source
 
-type rapidSrc struct{ t *rapid.T }
+type rapidSrc struct {
+	t     *rapid.T
+	draws *int // number of real draws made through this source (may be nil)
+}
 
 // RapidSrc wraps a *rapid.T.
-func RapidSrc(t *rapid.T) Src { return rapidSrc{t} }
+func RapidSrc(t *rapid.T) Src { return rapidSrc{t, nil} }
 
 func (r rapidSrc) Intn(n int) int {
 	if n <= 1 {
 		return 0
 	}
+	if r.draws != nil {
+		*r.draws++
+	}
 	return rapid.IntRange(0, n-1).Draw(r.t, "c")
 }
 
 func (r rapidSrc) length(min, max int) int {
+	if r.draws != nil {
+		*r.draws++
+	}
 	return rapid.IntRange(min, max).Draw(r.t, "len")
 }
 
